@@ -282,8 +282,10 @@ class EAlias(Engine):
         fn = getattr(self, 'ev_' + str(k), None)
         if fn is None:
             return {'skip': k}, []
+        self._extra = []
         exempt, label, obs = fn(ev)
-        incs = self._check_all(exempt, label, ev)
+        incs = self._extra + self._check_all(exempt, label, ev)
+        self._extra = []
         self.state(len(self.pool), sum(1 for e in self.pool if e.kind in MUTABLE), sum(1 for e in self.pool if e.kind in FOREIGN), bool(self._sharing_targets()))
         self.transition(k, ev.get('route') or ev.get('op') or ev.get('member'), obs.get('st'))
         return obs, incs
@@ -537,6 +539,14 @@ class EAlias(Engine):
 
         st, v = call(go)
         added = []
+        # a derivation from a MUTABLE object hands back a new object: were it the operand itself, changing "the result" would change
+        # the operand (an immutable may hand itself back - there is nothing to tell apart)
+        for m in made:
+            if not isinstance(m, tuple) and kind_of(m) in MUTABLE and route not in ('iadd_result',):
+                for e in self.pool:
+                    if e.obj is m and e.kind in MUTABLE and (e.serial in parents[:1] or e is bsrc or e is bsrc2):
+                        self._extra.append(self.inc(f'isolation|derive:{route}|result-is-the-mutable-operand-itself', event=ev, cls=e.kind, n=n))
+                        self.probe('derive_returned_operand')
         for m in made:
             if isinstance(m, tuple):
                 ent = self._add(m[0], route, parents, gen_expected=m[1], gen_src=m[2])
